@@ -354,6 +354,9 @@ pub fn run(ctx: &Ctx, rep: &mut Report) {
             }
             let got = if use_file_out { std::fs::read_to_string(&out_path).unwrap_or_default() } else { String::from_utf8_lossy(&o.stdout).to_string() };
             rep.count("cli_runs_compared", 1);
+            if split == "only" {
+                rep.count("cli_sentence_only_runs_compared", 1);
+            }
             if content.split_inclusive('\n').any(|l| l == "\n" || l == "\r\n") {
                 rep.count("cli_files_with_blank_lines", 1);
             }
@@ -364,7 +367,8 @@ pub fn run(ctx: &Ctx, rep: &mut Report) {
                 // first differing line
                 let (gl, el): (Vec<&str>, Vec<&str>) = (got.lines().collect(), expected.lines().collect());
                 let k = gl.iter().zip(el.iter()).position(|(a, b)| a != b).unwrap_or(gl.len().min(el.len()));
-                rep.violation("cli_output_differs", "sudachi CLI", &format!("output line {}: CLI {:?}, library rendering {:?} ({} vs {} lines)", k, gl.get(k), el.get(k), gl.len(), el.len()), "", scen());
+                // with --split-sentences=only the output is the sentences themselves: that is C16's observation point
+                rep.violation(if split == "only" { "cli_sentences_differ" } else { "cli_output_differs" }, "sudachi CLI", &format!("output line {}: CLI {:?}, library rendering {:?} ({} vs {} lines)", k, gl.get(k), el.get(k), gl.len(), el.len()), "", scen());
             } else {
                 rep.nontrivial(fnv(format!("cli|{}|{}", wi, fi).as_bytes()));
             }
